@@ -1,7 +1,9 @@
 //! Checks that only need `astria-merkle` and `astria-core`: C08, and the core-decoder part of C17.
 
-mod c08;
-mod c17;
+use vlight::{
+    c08,
+    c17,
+};
 
 fn main() {
     let (id, args) = vcommon::split_args();
